@@ -90,53 +90,73 @@ _SHAPES = {
 }
 
 
-def check_naming_functions(sm: SourceModel, res):
-    """The library's naming functions must still be the maps the tables are interpreted through."""
+def check_naming_functions(sm: SourceModel, res, schema=None):
+    """The library's naming functions must still be the maps the tables are interpreted through: they are constant-folded
+    (mxsa/strfold.py) over every name the schema contains and compared with the reference maps above - whatever way they are written."""
+    from ..strfold import Folder, NotFoldable, _Raise
     core = sm.modules.get(M_CORE)
     if core is None:
         raise AnalysisError("musicxml.util.core not in the import closure")
-    res.rule('R-TAB.naming', "the naming functions of util/core.py are the hyphen->CamelCase / underscore->hyphen maps "
-             "through which all class tables are interpreted")
-    for fname in ('cap_first', 'convert_to_xml_class_name'):
-        f = core.functions.get(fname)
-        if f is None:
+    res.rule('R-TAB.naming', "the naming functions of util/core.py are the hyphen->CamelCase maps through which all class tables are interpreted: folded over every "
+             "element / type / group name of the schema they give the reference class names; an `xs:` name is only accepted for simple types")
+    for fname in ('cap_first', 'convert_to_xml_class_name', 'convert_to_xsd_class_name'):
+        if fname not in core.functions:
             raise AnalysisError(f"anchor util.core.{fname} vanished")
-        shape = _normalise_locals(f.node)
-        if shape in _SHAPES[fname]:
-            res.ok('R-TAB.naming', f.fq, f"{fname} has the expected map shape", shape)
-        else:
-            raise AnalysisError(f"util.core.{fname} was rewritten into an idiom the analyser does not "
-                                f"understand: {shape!r}")
-    # convert_to_xsd_class_name: prefix table and CamelCase of hyphen-separated parts
-    f = core.functions.get('convert_to_xsd_class_name')
-    if f is None:
-        raise AnalysisError("anchor util.core.convert_to_xsd_class_name vanished")
-    src = unparse(f.node)
-    import re as _re
-    p0 = f.params[0]
-    need = {
-        'xs: prefix stripped': _re.escape(p0) + r"\.split\(':'\)\[1\]",
-        'first letter capitalised': r"cap_first\(" + _re.escape(p0) + r"\)",
-        'CamelCase of hyphen parts': r"''\.join\(\[cap_first\((\w+)\) for \1 in " + _re.escape(p0) + r"\.split\('-'\)\]\)",
-        'simple prefix': r"'XSDSimpleType' \+ " + _re.escape(p0),
-        'complex prefix': r"'XSDComplexType' \+ " + _re.escape(p0),
-        'group prefix': r"'XSDGroup' \+ " + _re.escape(p0),
-    }
-    missing = [k for k, rx in need.items() if _re.search(rx, src) is None]
-    if missing:
-        raise AnalysisError(f"util.core.convert_to_xsd_class_name no longer contains the expected steps {missing}")
-    # the prefix must be selected by the matching type_ literal
-    pairs = {}
-    for n in ast.walk(f.node):
-        if isinstance(n, ast.If) and isinstance(n.test, ast.Compare) and unparse(n.test.left) == (f.params[1] if len(f.params) > 1 else 'type_') \
-                and isinstance(n.test.ops[0], ast.Eq):
-            lit = const_value(n.test.comparators[0])
-            for st in n.body:
-                if isinstance(st, ast.Assign) and isinstance(st.value, ast.BinOp) and isinstance(st.value.left, ast.Constant):
-                    pairs[lit] = st.value.left.value
-    exp = {'simple_type': 'XSDSimpleType', 'complex_type': 'XSDComplexType', 'group': 'XSDGroup'}
-    res.check(pairs == exp, 'R-TAB.naming', f.fq, "type_ literal selects the matching class-name prefix",
-              f"found {pairs}", key='R-TAB.naming|convert_to_xsd_class_name|prefix-table')
+    folder = Folder({k: v.node for k, v in core.functions.items()})
+    if schema is None:
+        from ..xsdmodel import Schema
+        schema = Schema()
+    elements = sorted({d.name for d in schema.partwise_decls()} | set(schema.partwise_names()))
+    simple = sorted(set(schema.simple_types) | {f"xs:{n}" for n in schema.builtin_simple_types})
+    complex_ = sorted(schema.all_complex_types())
+    groups = sorted(getattr(schema, 'groups', {}) or {})
+    n_eval = 0
+    bad = []
+
+    def fold(fn, *args):
+        nonlocal n_eval
+        n_eval += 1
+        try:
+            return ('ok', folder.call(fn, *args))
+        except _Raise as r:
+            return ('raise', r.name)
+        except (IndexError, KeyError, ValueError, TypeError, AttributeError) as ex:
+            return ('raise', type(ex).__name__)
+        except NotFoldable as ex:
+            raise AnalysisError(f"util.core.{fn} uses a construct the constant folder does not interpret ({ex})")
+    for n in elements:
+        got = fold('convert_to_xml_class_name', n)
+        if got != ('ok', xml_class_name(n)):
+            bad.append(f"convert_to_xml_class_name({n!r}) -> {got[1]!r}, expected {xml_class_name(n)!r}")
+    for kind, names in (('simple_type', simple), ('complex_type', complex_), ('group', groups)):
+        for n in names:
+            if ':' in n and kind != 'simple_type':
+                continue
+            got = fold('convert_to_xsd_class_name', n, kind)
+            want = xsd_class_name(n, kind)
+            if got != ('ok', want):
+                bad.append(f"convert_to_xsd_class_name({n!r}, {kind!r}) -> {got[1]!r}, expected {want!r}")
+    # the default kind is the simple type
+    for n in simple[:5]:
+        got = fold('convert_to_xsd_class_name', n)
+        if got != ('ok', xsd_class_name(n, 'simple_type')):
+            bad.append(f"convert_to_xsd_class_name({n!r}) -> {got[1]!r}")
+    # an xs: name asked for as a complex type / group is refused, an unknown kind too
+    for kind in ('complex_type', 'group'):
+        got = fold('convert_to_xsd_class_name', 'xs:string', kind)
+        if got[0] != 'raise':
+            bad.append(f"convert_to_xsd_class_name('xs:string', {kind!r}) -> {got[1]!r}, expected a rejection")
+    got = fold('convert_to_xsd_class_name', 'pitch', 'no-such-kind')
+    if got[0] != 'raise':
+        bad.append(f"convert_to_xsd_class_name('pitch', 'no-such-kind') -> {got[1]!r}, expected a rejection")
+    for w in ('a', 'ab', 'aB', 'Ab', 'x-y'):
+        got = fold('cap_first', w)
+        if got != ('ok', w[0].upper() + w[1:]):
+            bad.append(f"cap_first({w!r}) -> {got[1]!r}")
+    res.extra['naming_function_evaluations'] = n_eval
+    res.check(not bad, 'R-TAB.naming', core.relpath, f"{n_eval} constant-folded applications of the naming functions to schema names give the reference class names",
+              fail_detail='; '.join(bad[:4]) + (f" (+{len(bad) - 4} more)" if len(bad) > 4 else ''), key='R-TAB.naming|folded')
+    res.floor('R-TAB.naming evaluations', n_eval, 400)
 
 
 # ------------------------------------------------------------------------------------------------
